@@ -9,7 +9,7 @@ import TracklibVerif.Model.GraphSession
   and then `fils.poids = pere.poids + e.weight + heuristic`. The relaxation *test* stays `pere.poids + e.weight < fils.poids`
   and the queue priority is `fils.poids`: the code as it is stores `g + h` in `poids` and adds the next edge on top of it,
   so the heuristic terms of all nodes on the way accumulate in the label (`relaxOneH` mirrors exactly that; it is not
-  the textbook A*, whose label is `g` and whose priority is `g + h` — `relaxOneFix` / `forwardFix` below is that variant,
+  the textbook A*, whose label is `g` and whose priority is `g + h` — `popMinKey` / `forwardFix` below is that variant,
   the repair proposed in `findings/C06.json`).
 * `Node.distanceTo` → `ENUCoords.distanceTo` → `(point - self).norm()` = `sqrt(E**2 + N**2 + U**2)`.
 * several `Network` objects alive at the same time (`World`), each with its own settings.
